@@ -25,7 +25,7 @@ for seed in sys.argv[1:]:
         rc, out = sh(["./check", pid, "--tier", os.environ.get("SEED_TIER", "quick")])
         res["exit"] = rc
         res["wall_s"] = round(time.time() - t0, 1)
-        res["violations"] = [l for l in out.splitlines() if l.startswith("VIOLATION")][:6]
+        res["violations"] = [l for l in out.splitlines() if l.startswith("VIOLATION")]
         res["summary"] = [l for l in out.splitlines() if l.startswith(pid + " tier")]
         res["caught"] = rc == 1 and bool(res["violations"])
         if rc not in (0, 1):
@@ -46,4 +46,11 @@ for seed in sys.argv[1:]:
     finally:
         sh(["git", "-C", "/repo", "checkout", "--", "."])
         sh(["git", "-C", "/repo", "clean", "-fdq"])
+    if os.path.abspath(seed).startswith("/verif/seeded/"):
+        keep = {k: res.get(k) for k in ("exit", "caught", "violations", "broken_obligations", "stream_disagreements", "signatures", "summary", "wall_s")}
+        keep["tier"] = os.environ.get("SEED_TIER", "quick")
+        keep["violations"] = len(res.get("violations") or [])
+        keep["no_failing_input_found_only"] = bool(res.get("violations")) and all("no-failing-input-found" in v for v in res["violations"])
+        json.dump(keep, open(os.path.join(seed, "caught.json"), "w"), indent=1)
+    res["violations"] = (res.get("violations") or [])[:4]
     print(json.dumps(res), flush=True)
